@@ -1,11 +1,14 @@
 """Run-level scenario machinery: scenarios (abstract pre-state + rendering skin), fault sweeps driven by
-the implementation's own operation sequence, batches of recorded histories judged by Observe.tla."""
+the implementation's own operation sequence, batches of recorded histories judged by Observe.tla.
+Histories are executed in a pool of worker processes (each history has a private scratch project)."""
+import bisect
 import json
+import multiprocessing
 import os
-import random
 import signal
 
 import bl
+import common
 import history
 from common import ToolError, log
 
@@ -15,13 +18,15 @@ ERR = bl.ERRNO
 
 class Scenario:
     def __init__(self, name, tree, lock=None, structured=False, use_cache=None, base=0, pad=0, crlf=False,
-                 unicode_prelude=False, bad=(), extra_files=None, names=None, tmp_on_other_fs=False):
+                 unicode_prelude=False, bad=(), extra_files=None, names=None, tmp_on_other_fs=False, maxid=None,
+                 config_class="ok", structured_key="explicit", extensions=None):
         self.name = name
         self.tree = tree
         self.names = names or sorted(tree)
         self.kw = dict(lock=lock, structured=structured, use_cache=use_cache, base=base, pad=pad, crlf=crlf,
                        unicode_prelude=unicode_prelude, bad=bad, extra_files=extra_files,
-                       tmp_on_other_fs=tmp_on_other_fs)
+                       tmp_on_other_fs=tmp_on_other_fs, maxid=maxid, config_class=config_class,
+                       structured_key=structured_key, extensions=extensions)
 
     def make(self, binary, label=""):
         return history.History(binary, self.names, self.tree, label=self.name + label, **self.kw)
@@ -36,13 +41,11 @@ def op_desc(ops, k):
     """Semantic description of the k-th counted operation of a reference run."""
     done_renames = 0
     lock_created = lock_written = False
-    first_src = None
     for o in ops:
         if o["k"] <= 0:
             continue
         if o["k"] == k:
-            path = o["path"]
-            base = os.path.basename(path)
+            base = os.path.basename(o["path"])
             if base == "Breadlog.yaml":
                 cls = "cfg"
             elif base == "Breadlog.lock":
@@ -69,14 +72,111 @@ def op_desc(ops, k):
             "lock_written_before": lock_written}
 
 
+# ---------------------------------------------------------------------------------------------
+# follow-up step generators (named, so that jobs stay picklable)
+
+def follow_check(h):
+    h.run("check")
+
+
+def follow_c02(h):
+    """developer deletes the highest-numbered statement and adds fresh ones, then an ordinary edit run; twice"""
+    for rnd in range(2):
+        cur = {n: [dict(x) for x in h.tree[n]] for n in h.names if h.present[n]}
+        best = None
+        for n, slots in cur.items():
+            for x in slots:
+                if x["ref"] is not None and x["kind"] == "plain" and (best is None or x["ref"] > best[1]):
+                    best = (n, x["ref"], x["uid"])
+        if best:
+            cur[best[0]] = [x for x in cur[best[0]] if x["uid"] != best[2]]
+        uid = 100 + 10 * rnd
+        for n in sorted(cur):
+            uid += 1
+            cur[n].append(S(uid))
+        h.dev(cur)
+        h.run("edit")
+
+
+def follow_fixpoint(h):
+    h.run("check")
+    h.run("edit")
+
+
+FOLLOW = {"check": follow_check, "c02": follow_c02, "fixpoint": follow_fixpoint}
+
+
+# ---------------------------------------------------------------------------------------------
+# jobs
+
+def exec_job(job):
+    """Execute one history. job: {binary, scen, steps, follow, sig, label}.  Steps are
+    (mode, plan) | ('dev', tree) | ('lock', value) | ('model', [model history steps])."""
+    scen = job["scen"]
+    h = scen.make(job["binary"], job.get("label", ""))
+    exits = []
+    ops0 = None
+    try:
+        for st in job["steps"]:
+            if st[0] == "dev":
+                h.dev(st[1])
+            elif st[0] == "lock":
+                h.dev_set_lock(st[1])
+            elif st[0] == "model":
+                for ms in st[1]:
+                    t = ms["t"]
+                    cur = {n: [dict(x) for x in h.tree[n]] for n in h.names if h.present[n]}
+                    if t == "run":
+                        exits.append(h.run(ms["mode"]).exit_class)
+                    elif t == "add":
+                        cur[h.names[ms["f"] - 1]].append(S(ms["uid"]))
+                        h.dev(cur)
+                    elif t == "del":
+                        n = h.names[ms["f"] - 1]
+                        cur[n] = [x for x in cur[n] if x["uid"] != ms["uid"]]
+                        h.dev(cur)
+                    elif t == "delfile":
+                        cur.pop(h.names[ms["f"] - 1], None)
+                        h.dev(cur)
+                    elif t == "addfile":
+                        cur[h.names[ms["f"] - 1]] = [S(ms["uid"])]
+                        h.dev(cur)
+            else:
+                r = h.run(st[0], plan=st[1] if len(st) > 1 else "")
+                exits.append(r.exit_class)
+                if ops0 is None:
+                    ops0 = r.ops
+        if job.get("follow"):
+            FOLLOW[job["follow"]](h)
+        final = {"tree": {n: h.tree[n] for n in h.names if h.present[n]}, "lock": h.abs_lock}
+        res = {"events": h.events, "exits": exits, "final": final}
+        if job.get("want_ops"):
+            res["ops"] = ops0
+        return res
+    finally:
+        h.close()
+
+
+def _pool_init():
+    signal.signal(signal.SIGINT, signal.SIG_IGN)
+
+
+def run_jobs(jobs, procs=None):
+    procs = procs or max(2, min(common.NCPU - 2, 14))
+    if len(jobs) <= 4 or procs <= 1:
+        return [exec_job(j) for j in jobs]
+    with multiprocessing.get_context("fork").Pool(procs, initializer=_pool_init) as pool:
+        return pool.map(exec_job, jobs, chunksize=max(1, min(16, len(jobs) // (procs * 4) or 1)))
+
+
 class Batch:
     """Recorded histories waiting to be judged."""
 
     def __init__(self):
         self.items = []      # (events, meta)
 
-    def add(self, hist, meta):
-        self.items.append((hist.events, meta))
+    def add_events(self, events, meta):
+        self.items.append((events, meta))
 
     def judge(self, verdict, props, signature_fn=None):
         """Run Observe over everything; attribute each reported violation of a property in `props` to its
@@ -90,61 +190,74 @@ class Batch:
             n += len(evs)
         viols, tr, nev = history.judge([evs for evs, _ in self.items], verdict)
         verdict.cov["traces_validated_against_impl"] += len(self.items)
-        verdict.cov.setdefault("trace_events", 0)
-        verdict.cov["trace_events"] += nev
-        verdict.cov.setdefault("observe_states", 0)
-        verdict.cov["observe_states"] += tr.distinct
-        import bisect
+        verdict.cov["trace_events"] = verdict.cov.get("trace_events", 0) + nev
+        verdict.cov["observe_states"] = verdict.cov.get("observe_states", 0) + tr.distinct
         out = []
-        seen = set()
         for prop, name, l, detail in viols:
             hi = bisect.bisect_right(offsets, l - 1) - 1
             evs, meta = self.items[hi]
             local = l - 1 - offsets[hi]
             out.append((prop, name, meta, local, detail))
             if prop not in props:
-                verdict.cov.setdefault("other_property_observations", {})
+                oo = verdict.cov.setdefault("other_property_observations", {})
                 key = "%s.%s" % (prop, name)
-                verdict.cov["other_property_observations"][key] = verdict.cov["other_property_observations"].get(key, 0) + 1
+                oo[key] = oo.get(key, 0) + 1
                 continue
             sig = {"check": name}
             sig.update(meta.get("sig", {}))
+            # which temp-file operations failed in the run that contains the violating event
+            j = local
+            while j > 0 and evs[j].get("ev") != "start":
+                j -= 1
+            failed = set()
+            for e in evs[j:]:
+                if e.get("ev") == "end":
+                    break
+                if e.get("ev") == "op" and not e.get("ok") and e.get("cls") == "tmp" and e.get("op") in ("create", "write", "rename", "fsync"):
+                    failed.add(e["op"])
+            sig["rename_failed"] = "rename" in failed
             if signature_fn:
                 sig.update(signature_fn(name, meta, evs, local, detail) or {})
-            key = json.dumps(sig, sort_keys=True)
-            if key in seen and len(seen) > 40:
-                continue
-            seen.add(key)
             desc = "%s.%s violated in scenario %s at event %d (%s): %s" % (
                 prop, name, meta.get("scenario"), local, json.dumps(sig, sort_keys=True), detail[:300])
             verdict.violation(sig, desc, {"scenario": meta.get("scenario_desc"), "steps": meta.get("steps"),
-                                          "signature": sig, "event_index": local, "events": evs, "detail": detail})
+                                          "follow": meta.get("follow"), "signature": sig, "event_index": local,
+                                          "events": evs, "detail": detail})
         self.items = []
         return out
 
 
-def sweep(binary, scen, mode, kinds, batch, verdict, follow=None, ks=None, ref_plan="", only_ops=None, stride=1,
-          label=""):
+def _action(kind):
+    if kind in ("kill_before", "kill_after"):
+        return kind
+    if kind in ("INT", "TERM"):
+        return "signal=%d" % (signal.SIGINT if kind == "INT" else signal.SIGTERM)
+    if kind == "short":
+        return "short=1"
+    return "errno=%d" % ERR[kind]
+
+
+def sweep(binary, scen, mode, kinds, batch, verdict, follow=None, ks=None, only_ops=None, stride=1, label="",
+          pre_steps=()):
     """Fault sweep (DESIGN 3.5): a fault-free recording run yields operations 1..K; then, from a fresh copy of
-    the scenario each time, for every k (optionally strided) and every kind in `kinds`, the run is repeated
-    with the fault at k.  `follow(hist)` may append further steps (developer edits, runs) to each history.
-    kinds: 'kill_before' | 'kill_after' | 'EIO' | 'ENOSPC' | 'EACCES' | 'EXDEV' | 'INT' | 'TERM' | 'short'."""
-    h = scen.make(binary, label)
-    r0 = h.run(mode, plan=ref_plan)
-    ops = r0.counted_ops()
-    K = max([o["k"] for o in ops] or [0])
-    if follow:
-        follow(h)
-    meta = {"scenario": scen.name, "scenario_desc": scen.describe(), "steps": [[mode, ref_plan]],
-            "sig": {"mode": mode, "fault": "none", "structured": bool(scen.kw["structured"])}}
-    batch.add(h, meta)
-    verdict.evaluated(("ref", scen.name, mode))
-    h.close()
+    the scenario each time, for every k and every kind in `kinds`, the run is repeated with the fault at k.
+    `follow` names a follow-up step generator.  kinds: kill_before | kill_after | EIO | ENOSPC | EACCES | EXDEV |
+    INT | TERM | short.  pre_steps are executed (fault-free) before the swept run."""
+    pre = [tuple(s) for s in pre_steps]
+    ref = exec_job({"binary": binary, "scen": scen, "steps": pre + [(mode, "")], "follow": follow, "label": label,
+                    "want_ops": not pre})
+    ops = ref["ops"] if not pre else _ops_of_last_run(binary, scen, pre, mode, label)
+    K = max([o["k"] for o in ops if o["k"] > 0] or [0])
+    base_sig = {"mode": mode, "structured": bool(scen.kw["structured"])}
+    meta = {"scenario": scen.name, "scenario_desc": scen.describe(), "steps": [list(s) for s in pre] + [[mode, ""]],
+            "follow": follow, "sig": dict(base_sig, fault="none")}
+    batch.add_events(ref["events"], meta)
+    verdict.evaluated(("ref", scen.name, mode, label))
+    jobs, metas = [], []
     points = set()
-    nruns = 1
     klist = list(ks) if ks is not None else list(range(1, K + 1, stride))
     for k in klist:
-        d = op_desc(r0.ops, k)
+        d = op_desc(ops, k)
         opname = d["at"].split(".")[1]
         if only_ops and d["at"] not in only_ops and opname not in only_ops:
             continue
@@ -153,65 +266,62 @@ def sweep(binary, scen, mode, kinds, batch, verdict, follow=None, ks=None, ref_p
                 continue
             if kind == "short" and opname != "write":
                 continue
-            if kind in ("kill_before", "kill_after"):
-                action = kind
-            elif kind in ("INT", "TERM"):
-                action = "signal=%d" % (signal.SIGINT if kind == "INT" else signal.SIGTERM)
-            elif kind == "short":
-                action = "short=1"
-            else:
-                action = "errno=%d" % ERR[kind]
-            plan = "at=%d:%s" % (k, action)
-            h = scen.make(binary, label)
-            r = h.run(mode, plan=plan)
-            if follow:
-                follow(h)
-            sig = {"mode": mode, "fault": kind if kind in ("kill_before", "kill_after", "INT", "TERM", "short") else "errno",
-                   "errno": kind if kind in ERR else "", "structured": bool(scen.kw["structured"])}
+            plan = "at=%d:%s" % (k, _action(kind))
+            sig = dict(base_sig)
+            sig["fault"] = kind if kind in ("kill_before", "kill_after", "INT", "TERM", "short") else "errno"
+            sig["errno"] = kind if kind in ERR else ""
             sig.update(d)
             sig["renames_before"] = min(sig["renames_before"], 1)
-            meta = {"scenario": scen.name, "scenario_desc": scen.describe(), "steps": [[mode, plan]], "sig": sig, "k": k}
-            batch.add(h, meta)
+            jobs.append({"binary": binary, "scen": scen, "steps": pre + [(mode, plan)], "follow": follow, "label": label})
+            metas.append({"scenario": scen.name, "scenario_desc": scen.describe(),
+                          "steps": [list(s) for s in pre] + [[mode, plan]], "follow": follow, "sig": sig, "k": k})
             points.add((d["at"], kind, min(d["renames_before"], 2), d["lock_created_before"]))
-            verdict.evaluated((scen.name, mode, k, kind))
-            verdict.sample({"scenario": scen.name, "mode": mode, "plan": plan, "op": d["at"],
-                            "exit": r.exit_class, "ops_in_run": K})
-            h.close()
-            nruns += 1
-    verdict.cov.setdefault("semantic_fault_points", 0)
-    verdict.cov["semantic_fault_points"] += len(points)
-    return K, nruns
+            verdict.evaluated((scen.name, mode, k, kind, label))
+    results = run_jobs(jobs)
+    for res, meta in zip(results, metas):
+        batch.add_events(res["events"], meta)
+        verdict.sample({"scenario": scen.name, "steps": meta["steps"], "op": meta["sig"]["at"], "exits": res["exits"],
+                        "ops_in_run": K})
+    verdict.cov["semantic_fault_points"] = verdict.cov.get("semantic_fault_points", 0) + len(points)
+    return K, len(jobs) + 1
 
 
-def planned_runs(binary, scen, steps_list, batch, verdict, sigbase=None, label=""):
-    """Each element of steps_list is a list of steps [(mode, plan) | ("dev", newtree) | ("lock", value)]
-    executed on a fresh copy of the scenario."""
-    n = 0
-    for steps in steps_list:
-        h = scen.make(binary, label)
-        rr = []
-        for st in steps:
+def _ops_of_last_run(binary, scen, pre, mode, label):
+    h = scen.make(binary, label)
+    try:
+        for st in pre:
             if st[0] == "dev":
                 h.dev(st[1])
             elif st[0] == "lock":
                 h.dev_set_lock(st[1])
             else:
-                r = h.run(st[0], plan=st[1])
-                rr.append(r.exit_class)
-        sig = {"mode": steps[0][0], "fault": "plan" if any(len(s) > 1 and s[0] in ("edit", "check") and s[1] for s in steps) else "none",
-               "plan": ";".join(s[1] for s in steps if s[0] in ("edit", "check") and s[1]),
-               "structured": bool(scen.kw["structured"])}
+                h.run(st[0], plan=st[1] if len(st) > 1 else "")
+        r = h.run(mode)
+        return r.ops
+    finally:
+        h.close()
+
+
+def planned_runs(binary, scen, steps_list, batch, verdict, sigbase=None, label="", follow=None):
+    """Each element of steps_list is a list of steps executed on a fresh copy of the scenario."""
+    jobs, metas = [], []
+    for steps in steps_list:
+        steps = [tuple(s) for s in steps]
+        plans = [s[1] for s in steps if s[0] in ("edit", "check") and len(s) > 1 and s[1]]
+        sig = {"mode": next((s[0] for s in steps if s[0] in ("edit", "check")), "history"),
+               "fault": "plan" if plans else "none", "plan": ";".join(plans), "structured": bool(scen.kw["structured"])}
         if sigbase:
             sig.update(sigbase)
-        meta = {"scenario": scen.name, "scenario_desc": scen.describe(),
-                "steps": [list(s) if s[0] in ("edit", "check", "lock") else ["dev", s[1]] for s in steps], "sig": sig}
-        batch.add(h, meta)
-        verdict.evaluated((scen.name, json.dumps(meta["steps"], sort_keys=True, default=str)))
-        verdict.sample({"scenario": scen.name, "steps": [list(s) if s[0] != "dev" else ["dev", "..."] for s in steps],
-                        "exits": rr})
-        h.close()
-        n += 1
-    return n
+        jobs.append({"binary": binary, "scen": scen, "steps": steps, "follow": follow, "label": label})
+        metas.append({"scenario": scen.name, "scenario_desc": scen.describe(),
+                      "steps": [list(s) if s[0] != "model" else ["model", s[1]] for s in steps], "follow": follow, "sig": sig})
+        verdict.evaluated((scen.name, json.dumps(metas[-1]["steps"], sort_keys=True, default=str)[:3000], label))
+    results = run_jobs(jobs)
+    for res, meta in zip(results, metas):
+        batch.add_events(res["events"], meta)
+        verdict.sample({"scenario": meta["scenario"], "steps": [s if s[0] not in ("dev", "model") else [s[0], "..."]
+                                                                   for s in meta["steps"]], "exits": res["exits"]})
+    return results
 
 
 # ---------------------------------------------------------------------------------------------
